@@ -7,6 +7,7 @@
     literals come from Gen/Round.v.  No proofs in this file. *)
 From Coq Require Import ZArith List Bool String.
 From V Require Import Base.Int Base.IO Gen.Round Model.TimeDelta Model.DateTime.
+From V Require Model.Date Model.Time.
 Import ListNotations.
 Open Scope Z_scope.
 
@@ -21,18 +22,18 @@ Record tl (T : Type) := mk_tl {
 Arguments mk_tl {T}. Arguments tl_nanosecond {T}. Arguments tl_add {T}. Arguments tl_sub {T}.
 
 (* NaiveTime: nanosecond = frac; + and - wrap around (overflowing_add_signed(..).0) *)
-Definition time_ops : tl T.ntime :=
-  mk_tl (fun t => Val (T.nanosecond t)) T.op_add_td T.op_sub_td.
+Definition time_ops : tl Time.ntime :=
+  mk_tl (fun t => Val (Time.nanosecond t)) Time.op_add_td Time.op_sub_td.
 (* NaiveDateTime: nanosecond = time.nanosecond(); + is checked_add_signed(..).expect(..) *)
 Definition ndt_op_add (a : ndt) (d : td) : R ndt := unwrap_r (ndt_checked_add_signed a d).
 Definition ndt_op_sub (a : ndt) (d : td) : R ndt := unwrap_r (ndt_checked_sub_signed a d).
 Definition ndt_ops : tl ndt :=
-  mk_tl (fun a => Val (T.nanosecond (nd_time a))) ndt_op_add ndt_op_sub.
+  mk_tl (fun a => Val (Time.nanosecond (nd_time a))) ndt_op_add ndt_op_sub.
 (* DateTime<Tz>: nanosecond = overflowing_naive_local().nanosecond(); + is checked_add_signed(..).expect(..) *)
 Definition dz_op_add (a : dtz) (d : td) : R dtz := unwrap_r (dz_checked_add_signed a d).
 Definition dz_op_sub (a : dtz) (d : td) : R dtz := unwrap_r (dz_checked_sub_signed a d).
 Definition dz_nanosecond (a : dtz) : R Z :=
-  let* l := overflowing_naive_local a in Val (T.nanosecond (nd_time l)).
+  let* l := overflowing_naive_local a in Val (Time.nanosecond (nd_time l)).
 Definition dz_ops : tl dtz := mk_tl dz_nanosecond dz_op_add dz_op_sub.
 
 (* const fn span_for_digits(digits: u16) -> u32 : match arms, first hit wins, default arm last *)
